@@ -482,6 +482,11 @@ class DeferredSender (threading.Thread):
             del self._dataForConnection[con]
           except:
             pass
+          # Its stream now has a hole in it -- give it up
+          try:
+            con.disconnect()
+          except:
+            pass
 
         for con in wlist:
           try:
